@@ -57,6 +57,23 @@ STRENGTH = {
  "C20-D": "missed at first (no nested groups); sub-groups under handles, the kernel's rmdir-fails-on-sub-groups rule in the model, and the oracle that a Destroy never removes another handle's group",
  "C05-D": "missed at first; new theorem C05_gen_container_failure_is_reported on the regenerated initFileSystem and a real container with an unappliable mask",
  "C17-D": "missed at first; every ptrace run now opens its own file 120 times and its handler counts scratch paths that are not its own",
+ # third round (changes C and D for the remaining twelve properties, same rules)
+ "C02-D": "missed at first; histories now change the working directory (chdir/fchdir into links, removed and renamed directories) before the relative call",
+ "C03-C": "missed at first; the kill-race loop is now pinned to one CPU so that the tracee is killed between the trap and the tracer's answer in most iterations",
+ "C04-C": "missed at first; pairs of host/domain names of different lengths are now used in every order, and the program reports the exact bytes",
+ "C04-D": "missed at first; launches inside a user namespace now also ask for supplementary groups and the program reports them",
+ "C06-D": "missed at first; the descriptor table is now also observed in container runs with 0..4 listed descriptors",
+ "C10-D": "missed at first; after loss of the transport (Destroy, init killed) 3-8 further calls of random kinds are made and each must fail within 10 s, then Destroy must return",
+ "C11-C": "missed at first; cancelled container runs of programs whose descendants left the process group (setsid, setpgid, daemon) are followed by a run that must be served within the bound",
+ "C13-C": "missed at first; a tree with 5000 entries directly under the mount root (and 3000 in a sub-directory) was added",
+ "C15-C": "missed at first; programs whose main process ends while forked children still run, with a 15 s watchdog on Run",
+ "C16-C": "missed at first; new theorems on the regenerated fork code (C16_gen_orphan_gives_up, C16_gen_pdeathsig_after_credentials); detected as a broken obligation, the window itself (tracer killed between clone and the first stop) is not reachable by a search from outside",
+ "C16-D": "missed at first; same theorems as C16-C",
+ "C01-C": "first detection had no concrete input (a regenerated fact no longer matched); every filter is now compared with its validated copy after the next Build",
+ "C01-D": "first detection had no concrete input; cleanTrace is now run on random overlapping lists against its specification and execve must stay traced in every shipped profile",
+ "C10-C": "first detection had no concrete input (only trace-inclusion mismatches); the result class of every Execve is now compared with the class its own parameters determine",
+ "C13-D": "first detection had no concrete input; DupToMemfd is now fed by readers that return data together with io.EOF, one byte at a time, in 7-byte chunks, and with (0,nil) reads",
+ "C19-C": "first detection had no concrete input; receives are now also made with a full descriptor table (0, 1, n-1, n free slots)",
 }
 
 out = []
@@ -142,7 +159,7 @@ nth = sum(len(theorems(p)) for p in props.PROPS)
 head = head.replace("24 genuine defects of go-sandbox were found; 20 are repaired by `fix:` commits in /repo, 4 are recorded",
                     "%d genuine defects of go-sandbox were found; %d are repaired by `fix:` commits in /repo, %d are recorded" % (len(fixed) + len(opens), len(fixed), len(opens)))
 nseeded = len([d for d in glob.glob(os.path.join(VERIF, "seeded", "C*-*")) if os.path.isdir(d)])
-head = head.replace("* 40 seeded property-breaking changes (two per property, written by sub-agents that saw only the property\n  text)", "* %d seeded property-breaking changes (two per property in a first round, two more for eight properties in a second\n  round after the checks existed; all written by sub-agents that saw only the property text)" % nseeded)
+head = head.replace("* 40 seeded property-breaking changes (two per property, written by sub-agents that saw only the property\n  text)", "* %d seeded property-breaking changes (two per property in a first round, two more per property in a second and third\n  round after the checks existed; all written by sub-agents that saw only the property text)" % nseeded)
 head = head.replace("all 40 are detected by the check of their property, 9 of them only after the\n  check was strengthened (section 8 says which and how).",
                     "all %d are detected by the check of their property; %d were missed by the version of the check that existed when they\n  were written and %d more were first detected without a concrete failing input — section 8 says which, and how the\n  checks were strengthened (never by telling a check about a particular change)." % (nseeded, len(missed), len(STRENGTH) - len(missed)))
 head = head.replace("* Levels are stated per property", "* %d kernel-checked theorems in the 20 property files.\n* Levels are stated per property" % nth)
